@@ -2,7 +2,7 @@
 (***************************************************************************)
 (* C11 - uncommitted changes are never swept into the bump commit.         *)
 (* Four files (two carry a version pattern, two do not), each in one of    *)
-(* the twelve states git can report, rendered as porcelain lines and read    *)
+(* the fourteen states git can report, rendered as porcelain lines and read    *)
 (* back by the spec's fixed-column parser:                                 *)
 (*   NoSweep              an update that is not blocked finds every        *)
 (*                        pattern file clean                               *)
@@ -18,10 +18,10 @@ Name(f) == CASE f = "pat1" -> <<112,97,116,49,46,116,120,116>> [] f = "pat2" -> 
              [] f = "oth1" -> <<111,49,46,116,120,116>> [] f = "oth2" -> <<77,32,120,46,116,120,116>>
 OldName(f) == <<111,108,100,95>> \o Name(f)
 PatternPaths == {Name("pat1"), Name("pat2")}
-\* "D?" : removed from the index, kept on disk (git rm --cached) - git reports the path twice, as "D " among the tracked entries and as "??" among the untracked ones at the end
-States == {"clean", " M", "M ", "MM", "A ", "AM", " D", "D ", "R ", "RM", "??", "D?"}
+\* " T" / "T " : type change (a file replaced by a symbolic link);  "D?" : removed from the index, kept on disk (git rm --cached) - git reports the path twice, as "D " among the tracked entries and as "??" among the untracked ones at the end
+States == {"clean", " M", "M ", "MM", "A ", "AM", " D", "D ", "R ", "RM", "??", "D?", " T", "T "}
 XY(s) == CASE s = " M" -> <<32,77>> [] s = "M " -> <<77,32>> [] s = "MM" -> <<77,77>> [] s = "A " -> <<65,32>> [] s = " D" -> <<32,68>>
-           [] s = "D " -> <<68,32>> [] s = "R " -> <<82,32>> [] s = "RM" -> <<82,77>> [] s = "AM" -> <<65,77>> [] s = "??" -> <<63,63>>
+           [] s = "D " -> <<68,32>> [] s = "R " -> <<82,32>> [] s = "RM" -> <<82,77>> [] s = "AM" -> <<65,77>> [] s = "??" -> <<63,63>> [] s = " T" -> <<32,84>> [] s = "T " -> <<84,32>>
 Line(f, s) == XY(s) \o <<32>> \o (IF s \in {"R ", "RM"} THEN GitSpelling(OldName(f)) \o <<32,45,62,32>> \o GitSpelling(Name(f)) ELSE GitSpelling(Name(f)))
 VARIABLES st, allow
 Init == st \in [{"pat1", "pat2", "oth1", "oth2"} -> States] /\ allow \in BOOLEAN
